@@ -94,6 +94,11 @@ inductive Op where
   | reapSelfExited (pid : Nat)
   | start
   | stop
+  /-- `remove_redirections(process)` once more, for a worker that has been stopped already: a `kill_process` that wakes from its
+      0.1 s nap after the periodic check has reaped the worker under it (and perhaps spawned a successor on the same
+      descriptor numbers).  The file objects of the old worker are closed, `pipe.fileno()` raises `ValueError` for each,
+      the loop `continue`s: nothing is touched.  (For a live pid the driver refuses the op.) -/
+  | lateRemove (pid : Nat)
   deriving DecidableEq, Repr
 
 inductive Out where
@@ -301,6 +306,7 @@ def step (s : State) : Op → State × List Out
       ({ s with fdt := t', procs := dropProc s pid }, o2)
   | .start => let (r', o) := start s.red; ({ s with red := r' }, o)
   | .stop => let (r', o) := stop s.red; ({ s with red := r' }, o)
+  | .lateRemove _ => (s, [])
 
 /-- `Redirector(stdout_redirect, stderr_redirect, buffer=…)` in a daemon with no worker yet;
     `pid0` is the first pid the kernel will hand out -/
